@@ -126,28 +126,30 @@ Section Strategies.
   Variable pred1 : M -> xrow -> Z.                    (* predict on one row, single target *)
   Variable predm : M -> xrow -> list Z.               (* predict on one row, one value per target *)
 
-  Definition direct_run (sc : scitype) (zs : list (list Z)) (wl : Z) (fh : list Z) : res run :=
-    let n := zlen (hd [] zs) in
+  (* zs: the variables seen by fit; zp: the variables at prediction time (zs itself, or zs extended by
+     the observations handed to update(..., update_params=False)) *)
+  Definition direct_run (sc : scitype) (zs zp : list (list Z)) (wl : Z) (fh : list Z) : res run :=
+    let n := zlen (hd [] zp) in
     match swt zs wl (fh_indexer fh) with
     | Err => Err
     | Ok (yt, Xt) =>
         let X := map (enc sc) Xt in
         let idx := zrange 0 (zlen fh) 1 in
         let ms := map (fun i => fit1 X (col i yt)) idx in
-        let xp := enc sc (map (last_window n wl) zs) in
+        let xp := enc sc (map (last_window n wl) zp) in
         Ok (mkRun (map (fun i => Fit1 X (col i yt)) idx)
                   (map (fun i => (i, xp)) idx)
                   (map (fun m => pred1 m xp) ms))
     end.
 
-  Definition multioutput_run (sc : scitype) (zs : list (list Z)) (wl : Z) (fh : list Z) : res run :=
-    let n := zlen (hd [] zs) in
+  Definition multioutput_run (sc : scitype) (zs zp : list (list Z)) (wl : Z) (fh : list Z) : res run :=
+    let n := zlen (hd [] zp) in
     match swt zs wl (fh_indexer fh) with
     | Err => Err
     | Ok (yt, Xt) =>
         let X := map (enc sc) Xt in
         let m := fitm X yt in
-        let xp := enc sc (map (last_window n wl) zs) in
+        let xp := enc sc (map (last_window n wl) zp) in
         Ok (mkRun [FitM X yt] [(0, xp)] (predm m xp))
     end.
 
@@ -163,9 +165,9 @@ Section Strategies.
     end.
 
   (* xfut: the rows of the X passed to predict, per exogenous column (fh_max values each) *)
-  Definition recursive_run (sc : scitype) (zs : list (list Z)) (wl : Z) (fh : list Z)
+  Definition recursive_run (sc : scitype) (zs zp : list (list Z)) (wl : Z) (fh : list Z)
              (xfut : list (list Z)) : res run :=
-    let n := zlen (hd [] zs) in
+    let n := zlen (hd [] zp) in
     match swt zs wl (fh_indexer [1]) with
     | Err => Err
     | Ok (yt, Xt) =>
@@ -173,8 +175,8 @@ Section Strategies.
         let t := concat yt in                          (* yt.ravel() *)
         let m := fit1 X t in
         let fm := zlast fh in                          (* fh.to_relative(cutoff)[-1] *)
-        let yb := last_window n wl (hd [] zs) ++ zeros fm in
-        let xb := map (fun p => last_window n wl (fst p) ++ snd p) (combine (tl zs) xfut) in
+        let yb := last_window n wl (hd [] zp) ++ zeros fm in
+        let xb := map (fun p => last_window n wl (fst p) ++ snd p) (combine (tl zp) xfut) in
         let steps := rec_steps m sc wl xb (zrange 0 fm 1) yb in
         let y_pred := map snd steps in
         Ok (mkRun [Fit1 X t] (map (fun s => (0, fst s)) steps)
@@ -192,10 +194,10 @@ Section Strategies.
         (x, p) :: dirrec_steps sc wl rest (i + 1) (zupd buf (dr_fb wl i) p)
     end.
 
-  Definition dirrec_run (sc : scitype) (zs : list (list Z)) (wl : Z) (fh : list Z) : res run :=
+  Definition dirrec_run (sc : scitype) (zs zp : list (list Z)) (wl : Z) (fh : list Z) : res run :=
     match zs with
     | [y] =>
-        let n := zlen y in
+        let n := zlen (hd [] zp) in
         match swt [y] wl (fh_indexer fh) with
         | Err => Err
         | Ok (yt, Xt) =>
@@ -204,7 +206,7 @@ Section Strategies.
             let idx := zrange 0 (zlen fh) 1 in
             let Xfit := fun i => map (fun row => enc sc [zslice row 0 (dr_fit_hi wl i)]) full in
             let ms := map (fun i => fit1 (Xfit i) (col i yt)) idx in
-            let buf := last_window n wl y ++ zeros (zlen fh) in
+            let buf := last_window n wl (hd [] zp) ++ zeros (zlen fh) in
             let steps := dirrec_steps sc wl ms 0 buf in
             Ok (mkRun (map (fun i => Fit1 (Xfit i) (col i yt)) idx)
                       (combine idx (map fst steps))
@@ -213,12 +215,20 @@ Section Strategies.
     | _ => Err   (* NotImplementedError: exogenous variables with dirrec *)
     end.
 
+  (* fit(y, X, fh); optionally update(ynew, Xnew, update_params=False); predict(fh, Xfut).
+     `news` holds, per variable (y first), the observations appended by update ([] when there is no
+     update) *)
+  Definition extend (zs news : list (list Z)) : list (list Z) :=
+    map (fun p => fst p ++ snd p) (combine zs news).
+
   Definition reduce (st : strategy) (sc : scitype) (y : list Z) (xs : list (list Z)) (wl : Z)
-             (fh : list Z) (xfut : list (list Z)) : res run :=
+             (fh : list Z) (xfut : list (list Z)) (news : list (list Z)) : res run :=
+    let zs := y :: xs in
+    let zp := extend zs news in
     match st with
-    | Direct => direct_run sc (y :: xs) wl fh
-    | Multioutput => multioutput_run sc (y :: xs) wl fh
-    | Recursive => recursive_run sc (y :: xs) wl fh xfut
-    | DirRec => dirrec_run sc (y :: xs) wl fh
+    | Direct => direct_run sc zs zp wl fh
+    | Multioutput => multioutput_run sc zs zp wl fh
+    | Recursive => recursive_run sc zs zp wl fh xfut
+    | DirRec => dirrec_run sc zs zp wl fh
     end.
 End Strategies.
